@@ -1118,7 +1118,23 @@ fn hist_main(args: &[String]) {
         }
     }
     let empty: HashMap<usize, String> = HashMap::new();
+    if args.get(2).map(|s| s == "f32first").unwrap_or(false) {
+        // the first Boolean operation of this process uses f32 coordinates (anything initialised once per
+        // process from the first call is now initialised from an f32 call)
+        let _ = dispatch("BOOL f32 I 0 1000 MM 1 1 4 0:0 0:0 1:2 0:0 0:0 1:2 0:0 0:0 1 1 4 1:0 -1:0 3:0 1:0 -1:0 3:0 1:0 -1:0", &empty);
+    }
     let base: Vec<String> = reqs.iter().map(|r| dispatch(r, &empty)).collect();
+    {
+        // a digest per request, to compare the answers of two processes with different histories
+        for (i, b) in base.iter().enumerate() {
+            let mut h: u64 = 0xcbf29ce484222325;
+            for byte in b.as_bytes() {
+                h ^= *byte as u64;
+                h = h.wrapping_mul(0x100000001b3);
+            }
+            println!("HISTBASE {} {:016x}", i, h);
+        }
+    }
     let mut executions = reqs.len() as u64;
     let mut mismatches = 0u64;
     let mut modified = 0u64;
